@@ -38,17 +38,10 @@ func (o *OperandPegImpl) Require66h() bool {
 		case isR64Type(baseType): // TODO: QWORD がサポートされたら M64 チェックを追加
 			inherentSize = 64
 		case (baseType == CodeIMM || baseType == CodeIMM8 || baseType == CodeIMM16 || baseType == CodeIMM32 || baseType == CodeIMM64) && len(o.parsedOperands) == 1:
-			// 即値自体から推定されるサイズを使用
-			immSize := getImmediateSizeType(parsed.Immediate)
-			switch immSize {
-			case CodeIMM8:
-				inherentSize = 8
-			case CodeIMM16:
-				inherentSize = 16
-			case CodeIMM32:
+			// 単独の即値 (PUSH imm): 16 ビットモードで 16 ビット (符号付き/符号なし) に収まらない値だけが
+			// 32 ビットオペランドを要求する。32 ビットモードでは常にモードの既定サイズで足りる。
+			if v := parsed.Immediate; is16bitMode && (v < -32768 || v > 65535) {
 				inherentSize = 32
-			case CodeIMM64:
-				inherentSize = 64
 			}
 		case baseType == CodeM: // 明示的な DataType なしのメモリ
 			// サイズ指定のないメモリはオペランドサイズを決めない (アドレスレジスタの幅はアドレスサイズ 67h の問題)
